@@ -1,4 +1,4 @@
-package zzverifc20
+package e2e
 
 // C20 support: the differential comparison used by every generated harness (zz_verif_c20_gen.go is
 // produced by engine/cmd/c20gen from /repo's current protobuf code on every run).
